@@ -34,13 +34,15 @@ RULE = ("cases = (2-4 datasets created in index order with the main dataset at a
         "multi-page full sync, then runs to the fixpoint; and LatestOnly sources whose look-back entry (the change at token - 1) is "
         "superseded by a rewiring / unlinking / deletion of the same dependency entity (outgoing first hop); 3-hop paths that stay "
         "in one dataset (hierarchies: the same entity on several join levels); 2-3 dependencies on distinct datasets with a "
-        "scripted write into a dependency dataset from inside the sink callback of an INCREMENTAL run; a case is non-trivial when an "
+        "scripted write into a dependency dataset from inside the sink callback of an INCREMENTAL run; jobs declaring join paths "
+        "in both forms at once (Dependencies in the job JSON and track_queries in the transform); write batches holding the same "
+        "main / link entity two or three times with a reference flipping away and back; a case is non-trivial when an "
         "incremental run delivered entities found through a dependency or a scripted failure fired; distinct = distinct case tuples")
 TRUSTED = [
     "Store.GetRelatedAtTime (with its continuation paging at limit = batch size) is specified, not modelled: related(e) at instant t "
     "= the references of the latest non-deleted version with commit time <= t, per dataset in scope (property C03 covers the "
-    "query implementation); exercised here only on histories where one StoreEntities call holds an entity id at most once and an "
-    "entity id lives in one dataset",
+    "query implementation); exercised here on histories where an entity id lives in one dataset; a StoreEntities call may hold "
+    "the same live entity several times (the last occurrence is the version that counts), not mixed with deletions",
     "the versions each StoreEntities call appended are read back from the real change feeds (write-time dedup is C01/C02's "
     "subject); all versions of one call share one commit instant, later calls have later instants (txnTime = time.Now())",
     "core.Dataset's change-feed length before a run is an observed input (only the tree variant of GetChangesWatermark uses it)",
@@ -86,8 +88,10 @@ def D(ds, *joins):
     return {"ds": ds, "joins": list(joins)}
 
 
-def mk(nds, main, deps, ops, batch=2, latest=False, track=False):
-    return {"nds": nds, "main": main, "deps": deps, "track": track, "latest": latest, "batch": batch, "ops": ops}
+def mk(nds, main, deps, ops, batch=2, latest=False, track=False, ntrack=0):
+    """ntrack > 0: the last ntrack dependencies are declared through track_queries, the others in the job JSON"""
+    return {"nds": nds, "main": main, "deps": deps, "track": track, "ntrack": ntrack, "latest": latest, "batch": batch,
+            "ops": ops}
 
 
 def witness_cases():
@@ -138,6 +142,14 @@ def witness_cases():
         mk(3, 0, [D(1, J(0, 1, True)), D(2, J(0, 2, False))],
            [W(0, [(1, [(1, 11)], 0), (2, [], 0)]), W(1, [(11, [], 0)]), W(2, [(21, [], 0)]), R(),
             W(1, [(11, [], 0)]), R(mid=(0, 2, [(22, [(2, 2)], 0)])), R(fix=True)], batch=2),
+        # plain behaviour: Dependencies in the job JSON AND track_queries in the transform (with an implicit dependency)
+        mk(4, 0, [D(1, J(0, 1, True)), D(2, J(3, 2, True), J(0, 3, False))],
+           [W(0, [(1, [(1, 11)], 0), (2, [], 0)]), W(1, [(11, [], 0)]), W(3, [(31, [(2, 21), (3, 2)], 0)]), W(2, [(21, [], 0)]),
+            R(), W(2, [(21, [], 0)]), R(fix=True), W(3, [(31, [(2, 21), (3, 1)], 0)]), R(fix=True)], batch=2, ntrack=1),
+        # plain behaviour: one batch holds main entity 1 twice, its reference flips to 12 and back to 11; then 11 changes
+        mk(2, 0, [D(1, J(0, 1, True))],
+           [W(0, [(1, [(1, 11)], 0), (2, [(1, 12)], 0)]), W(1, [(11, [], 0), (12, [], 0)]), R(),
+            W(0, [(1, [(1, 12)], 0), (1, [(1, 11)], 0)]), R(), W(1, [(11, [], 0)]), R(fix=True)], batch=2),
         # plain behaviour: fan-out 3 > batch 1, sink fails at its 2nd call, restart
         mk(2, 0, [D(1, J(0, 1, True))],
            [W(0, [(1, [(1, 11)], 0), (2, [(1, 11)], 0), (3, [(1, 11)], 0)]), W(1, [(11, [], 0)]), R(),
@@ -234,7 +246,10 @@ def rand_case(rng, maxops=12):
         else:
             ops.append(R(fix=True))
     ops.append(R(fix=True))
-    return mk(nds, main, deps, ops, batch=rng.range(1, 4), latest=rng.chance(1, 4), track=track)
+    ntrack = 0
+    if not track and len(deps) >= 2 and deps[-1]["joins"][-1]["ds"] == main and rng.chance(1, 3):
+        ntrack = 1
+    return mk(nds, main, deps, ops, batch=rng.range(1, 4), latest=rng.chance(1, 4), track=track, ntrack=ntrack)
 
 
 def star(rng, nmain=None):
@@ -411,18 +426,92 @@ def midinc_case(rng):
     return mk(nds, 0, deps, ops, batch=rng.choice([1, 2, 3, 4]), latest=False)
 
 
+def both_case(rng):
+    """a job that declares join paths in BOTH forms: Dependencies in the source JSON and track_queries in its
+    transform (the latter with an intermediate dataset, i.e. an implicit dependency); changes in the datasets that
+    are only reachable through the track_queries path; runs to the fixpoint"""
+    inv_j = rng.chance(1, 2)
+    i1, i2 = rng.chance(1, 2), rng.chance(1, 2)
+    deps = [D(1, J(0, 1, inv_j)), D(2, J(3, 2, i1), J(0, 3, i2))]
+    if rng.chance(1, 3):
+        deps = [D(1, J(0, 1, inv_j)), D(2, J(0, 2, i1))]
+    nds = 4
+    rl = roles(deps)
+    used = [0, 1, 2] + ([3] if len(deps[1]["joins"]) == 2 else [])
+    ops = [rand_write(rng, k, rl, nds) for k in used]
+    ops.append(R())
+    for _ in range(rng.range(2, 5)):
+        ops.append(rand_write(rng, rng.choice(used[1:] + used[2:]), rl, nds))
+        if rng.chance(1, 2):
+            ops.append(R(fix=True))
+    ops.append(R(fix=True))
+    return mk(nds, 0, deps, ops, batch=rng.choice([1, 2, 3]), latest=False, ntrack=1)
+
+
+def flipback_case(rng):
+    """one write batch holds the same main / link entity twice: a reference flips away and back (or away to a third
+    target) inside the batch; then the dependency entities change; inverse hops, so only the graph as it stands
+    now can find the entity.  Runs to the fixpoint."""
+    two = rng.chance(1, 3)
+    if two:     # dep d1 <-p1- link d2 -p2-> / <-p2- main d0
+        i2 = rng.chance(1, 2)
+        deps = [D(1, J(2, 1, True), J(0, 2, i2))]
+        owner, nds = 2, 3
+    else:       # dep d1 <-p1- main d0
+        deps = [D(1, J(0, 1, True))]
+        owner, nds = 0, 2
+    rl = roles(deps)
+    ids = ids_of(owner)
+    tg = ids_of(1)[:2]
+
+    def ent(i, t):
+        refs = [(1, t)] if t is not None else []
+        if two:
+            for (p, tds) in rl.get(owner, []):
+                if p == 2 and rng.chance(2, 3):
+                    refs.append((2, rng.choice(ids_of(tds))))
+        return (i, refs, 0)
+    cur = dict((i, rng.choice(tg)) for i in ids)
+    ops = []
+    if two:
+        ops.append(rand_write(rng, 0, rl, nds))
+    ops.append(W(owner, [ent(i, cur[i]) for i in ids]))
+    ops.append(W(1, [(t, [], 0) for t in tg]))
+    ops.append(R())
+    for _ in range(rng.range(1, 3)):
+        i = rng.choice(ids)
+        other = [t for t in tg + [None] if t != cur[i]]
+        seq = [rng.choice(other), cur[i]] if rng.chance(2, 3) else [rng.choice(other), rng.choice(other)]
+        if rng.chance(1, 4):
+            seq = [seq[0], seq[1], rng.choice(tg)]
+        es = [ent(i, t) for t in seq]
+        if rng.chance(1, 3):
+            j = rng.choice([x for x in ids if x != i])
+            es.insert(rng.below(len(es) + 1), ent(j, cur[j]))
+        cur[i] = seq[-1]
+        ops.append(W(owner, es))
+        if rng.chance(1, 2):
+            ops.append(R())
+        ops.append(W(1, [(t, [], 0) for t in tg if rng.chance(2, 3)] or [(tg[0], [], 0)]))
+        ops.append(R(fix=True))
+    return mk(nds, 0, deps, ops, batch=rng.choice([1, 2, 4]), latest=False)
+
+
 def gen(rng, tier):
     if tier == "quick":
         return ([rand_case(rng) for _ in range(100)] + [fanout_case(rng) for _ in range(25)]
                 + [midfull_case(rng) for _ in range(25)] + [lookback_case(rng) for _ in range(30)]
-                + [chain_case(rng) for _ in range(30)] + [midinc_case(rng) for _ in range(30)])
+                + [chain_case(rng) for _ in range(30)] + [midinc_case(rng) for _ in range(30)]
+                + [both_case(rng) for _ in range(20)] + [flipback_case(rng) for _ in range(30)])
     if tier == "search":
         return ([rand_case(rng, 14) for _ in range(150)] + [fanout_case(rng) for _ in range(40)]
                 + [midfull_case(rng) for _ in range(40)] + [lookback_case(rng) for _ in range(60)]
-                + [chain_case(rng) for _ in range(80)] + [midinc_case(rng) for _ in range(80)])
+                + [chain_case(rng) for _ in range(80)] + [midinc_case(rng) for _ in range(80)]
+                + [both_case(rng) for _ in range(50)] + [flipback_case(rng) for _ in range(80)])
     return ([rand_case(rng, 16) for _ in range(1900)] + [fanout_case(rng) for _ in range(300)]
             + [midfull_case(rng) for _ in range(300)] + [lookback_case(rng) for _ in range(400)]
-            + [chain_case(rng) for _ in range(400)] + [midinc_case(rng) for _ in range(400)])
+            + [chain_case(rng) for _ in range(400)] + [midinc_case(rng) for _ in range(400)]
+            + [both_case(rng) for _ in range(200)] + [flipback_case(rng) for _ in range(400)])
 
 
 def run(binp, cases):
@@ -620,7 +709,7 @@ def tags(c, o):
     t = ["hops=%d" % max([len(d["joins"]) for d in c["deps"]] + [0]),
          "deps=%d" % len(deps),
          "shared-dataset=%s" % (len(set(dss)) < len(dss)),
-         "latestOnly=%s" % c["latest"], "batch=%d" % c["batch"], "declared=%s" % ("track_queries" if c["track"] else "json")]
+         "latestOnly=%s" % c["latest"], "batch=%d" % c["batch"], "declared=%s" % ("track_queries" if c["track"] else ("json+track_queries" if c.get("ntrack") else "json"))]
     for d in c["deps"]:
         t.append("shape=" + "".join("i" if j["inv"] else "o" for j in d["joins"]))
     for op, rs in zip([op for op in c["ops"] if op["op"] == "run"], o.get("runs") or []):
